@@ -409,7 +409,8 @@ func trunc(s string) string {
 // values no identity the encoder could refer back to; what the property demands of them is the first half of
 // its statement: encoding ends (with the value or with an error), the process survives. Each kind runs in a
 // job of its own, so that a dead worker names it.
-var valueCycleKinds = []string{"map-contains-itself", "list-contains-itself", "interface-points-to-itself", "map-in-list-in-map", "list-of-two-lists-containing-each-other"}
+var valueCycleKinds = []string{"map-contains-itself", "list-contains-itself", "interface-points-to-itself", "map-in-list-in-map", "list-of-two-lists-containing-each-other",
+	"list-contains-itself-twice", "wide-list-contains-itself", "map-contains-itself-under-two-keys"}
 
 func valueCycle(kind string) interface{} {
 	switch kind {
@@ -428,6 +429,23 @@ func valueCycle(kind string) interface{} {
 	case "map-in-list-in-map":
 		m := map[interface{}]interface{}{}
 		m["l"] = []interface{}{m}
+		return m
+	case "list-contains-itself-twice":
+		// an encoder that goes on after it has refused the first occurrence descends again from every level
+		s := []interface{}{nil, nil}
+		s[0], s[1] = s, s
+		return s
+	case "wide-list-contains-itself":
+		// every lap of the unfolding writes 2000 elements
+		s := make([]interface{}, 2000)
+		for i := range s {
+			s[i] = i
+		}
+		s[1000] = s
+		return s
+	case "map-contains-itself-under-two-keys":
+		m := map[string]interface{}{}
+		m["a"], m["b"] = m, m
 		return m
 	case "list-of-two-lists-containing-each-other":
 		a, b := []interface{}{nil}, []interface{}{nil}
@@ -497,7 +515,20 @@ type recByteHolder struct {
 	R    *[]recByte
 }
 
-var recTypeKinds = []string{"tree", "dict", "cyclic-slice", "cyclic-array", "struct-field", "map-of-pointers", "tree-first-used-concurrently", "shared-pointer-to-a-slice-of-a-named-byte-type"}
+type chainIface struct {
+	V    int
+	Next interface{}
+}
+type chainSlice struct {
+	V    int
+	Kids []*chainSlice
+}
+type chainPtr struct {
+	V    int
+	Next *chainPtr
+}
+
+var recTypeKinds = []string{"long-chains", "tree", "dict", "cyclic-slice", "cyclic-array", "struct-field", "map-of-pointers", "tree-first-used-concurrently", "shared-pointer-to-a-slice-of-a-named-byte-type"}
 
 func checkRecType(kind string, res *result) {
 	type tc struct {
@@ -558,6 +589,71 @@ func checkRecType(kind string, res *result) {
 			}
 			return ""
 		}})
+	case "long-chains":
+		// acyclic data as deep as the decoder reads (its limit is 100000 levels): nodes linked through an
+		// interface field, through a one-element []*T, through a plain pointer (45000 each). The encoder's depth guard must
+		// not take them for a value that contains itself.
+		n := 45000 // the list-linked shape nests two decoder levels per node
+		hio.Register((*chainIface)(nil))
+		count := func(what string, n int, length func(interface{}) int) func(orig, got interface{}) string {
+			return func(_, got interface{}) string {
+				if l := length(got); l != n {
+					return fmt.Sprintf("%s: %d nodes came back, %d went in", what, l, n)
+				}
+				return ""
+			}
+		}
+		cases = append(cases, tc{"90000 nodes linked by an interface{} field", func() interface{} {
+			var head interface{}
+			for i := 0; i < 2*n; i++ {
+				head = &chainIface{i, head}
+			}
+			return head
+		}, func() interface{} { return new(interface{}) }, count("interface chain", 2*n, func(got interface{}) int {
+			l := 0
+			for x := *got.(*interface{}); x != nil; l++ {
+				c, ok := x.(*chainIface)
+				if !ok {
+					return -1
+				}
+				x = c.Next
+			}
+			return l
+		})})
+		cases = append(cases, tc{"45000 levels linked by a []*T field", func() interface{} {
+			var s *chainSlice
+			for i := 0; i < n; i++ {
+				if s == nil {
+					s = &chainSlice{V: i}
+				} else {
+					s = &chainSlice{i, []*chainSlice{s}}
+				}
+			}
+			return s
+		}, func() interface{} { return new(*chainSlice) }, count("slice chain", n, func(got interface{}) int {
+			l := 0
+			for x := *got.(**chainSlice); x != nil; l++ {
+				if len(x.Kids) == 0 {
+					x = nil
+				} else {
+					x = x.Kids[0]
+				}
+			}
+			return l
+		})})
+		cases = append(cases, tc{"90000 nodes linked by a pointer field", func() interface{} {
+			var p *chainPtr
+			for i := 0; i < 2*n; i++ {
+				p = &chainPtr{i, p}
+			}
+			return p
+		}, func() interface{} { return new(*chainPtr) }, count("pointer chain", 2*n, func(got interface{}) int {
+			l := 0
+			for x := *got.(**chainPtr); x != nil; x = x.Next {
+				l++
+			}
+			return l
+		})})
 	case "shared-pointer-to-a-slice-of-a-named-byte-type":
 		// not a recursive type, but a node kind the graph generator lacks: the slice is read through the byte
 		// path, which enters it in the reference table as []uint8
